@@ -230,19 +230,29 @@ func (c *Ctx) Roles() *ParserRoles {
 						continue
 					}
 					for _, pair := range [][2]ssa.Value{{bo.X, bo.Y}, {bo.Y, bo.X}} {
-						call, ok1 := pair[0].(*ssa.Call)
 						par, ok2 := pair[1].(*ssa.Parameter)
-						if !ok1 || !ok2 {
-							continue
-						}
-						cal := calleeOf(call)
-						if cal == nil || !c.inModule(cal) || !l.Body[call.Block()] {
+						if !ok2 {
 							continue
 						}
 						if bt, ok := par.Type().Underlying().(*types.Basic); !ok || bt.Info()&types.IsInteger == 0 {
 							continue
 						}
-						if cal.Signature.Params().Len() != 0 {
+						// the other side: a call, or a loop variable fed only by calls, of one niladic module function
+						var cal *ssa.Function
+						okCalls := true
+						n := 0
+						for _, rt := range plainOrigins.Roots(pair[0]) {
+							if rt.Kind != "call" || rt.Fn == nil || !c.inModule(rt.Fn) || rt.Fn.Signature.Params().Len() != 0 || len(rt.Path) != 0 {
+								okCalls = false
+								continue
+							}
+							if cal != nil && cal != rt.Fn {
+								okCalls = false
+							}
+							cal = rt.Fn
+							n++
+						}
+						if !okCalls || cal == nil || n == 0 {
 							continue
 						}
 						r.Climb = f
